@@ -136,9 +136,37 @@ class AbstractOperation:
         )
 
 
+def string_literal(value: str) -> str:
+    """
+    Return a HERA string literal that the lexer reads back as `value`. Only the escapes
+    that the lexer understands are used: \\n, \\t, \\\\, \\", two-digit hex escapes and
+    three-digit octal escapes.
+    """
+    chars = []
+    for c in value:
+        o = ord(c)
+        if c == '"':
+            chars.append('\\"')
+        elif c == "\\":
+            chars.append("\\\\")
+        elif c == "\n":
+            chars.append("\\n")
+        elif c == "\t":
+            chars.append("\\t")
+        elif 32 <= o < 127:
+            chars.append(c)
+        elif o < 256:
+            chars.append("\\x{:02x}".format(o))
+        elif o < 512:
+            chars.append("\\{:03o}".format(o))
+        else:
+            chars.append(c)
+    return '"' + "".join(chars) + '"'
+
+
 def arg_to_string(arg):
     if arg.type == Token.STRING:
-        return json.dumps(arg.value)
+        return string_literal(arg.value)
     elif arg.type == Token.REGISTER:
         return "R" + str(arg.value)
     else:
